@@ -203,6 +203,34 @@ pub fn run(ctx: &mut Ctx) {
             }
         }
     }
+    // the extension-type helpers: every index list of length 0..=3 over 0..=ndim+1 (and usize::MAX) as permutation, name lists of
+    // every length 0..=ndim+1, uniform shapes of every length - each call must return, never panic
+    {
+        use serde_arrow::schema::ext::{FixedShapeTensorField, VariableShapeTensorField};
+        let elem = || json!({"name": "element", "data_type": "F32"});
+        for ndim in 0..=3usize {
+            let shape: Vec<usize> = (0..ndim).map(|i| i + 2).collect();
+            let mut perms: Vec<Vec<usize>> = vec![vec![]];
+            for len in 1..=3usize { let mut next = vec![]; let base: Vec<Vec<usize>> = if len == 1 { vec![vec![]] } else { perms.iter().filter(|p| p.len() == len - 1).cloned().collect() };
+                for p in base { for v in (0..=ndim + 1).chain(std::iter::once(usize::MAX)) { let mut q = p.clone(); q.push(v); next.push(q); } } perms.extend(next); }
+            for p in &perms {
+                if !ctx.thorough && p.len() == 3 && p[0].wrapping_add(p[1]).wrapping_add(p[2]) % 3 != 0 { continue; }
+                let (sh, pp) = (shape.clone(), p.clone());
+                attempt(ctx, "tensor:fixed_permutation", format!("shape {:?} permutation {:?}", shape, p), move || { let f = FixedShapeTensorField::new("t", elem(), sh).map_err(|e| e.to_string())?; f.permutation(pp).map_err(|e| e.to_string())?; Ok(()) });
+                let pp = p.clone();
+                attempt(ctx, "tensor:variable_permutation", format!("ndim {} permutation {:?}", ndim, p), move || { let f = VariableShapeTensorField::new("t", elem(), ndim).map_err(|e| e.to_string())?; f.permutation(pp).map_err(|e| e.to_string())?; Ok(()) });
+            }
+            for nn in 0..=ndim + 1 {
+                let names: Vec<String> = (0..nn).map(|i| format!("d{}", i)).collect();
+                let (sh, n1, n2) = (shape.clone(), names.clone(), names.clone());
+                attempt(ctx, "tensor:fixed_dim_names", format!("shape {:?} names {:?}", shape, names), move || { let f = FixedShapeTensorField::new("t", elem(), sh).map_err(|e| e.to_string())?; f.dim_names(n1).map_err(|e| e.to_string())?; Ok(()) });
+                attempt(ctx, "tensor:variable_dim_names", format!("ndim {} names {:?}", ndim, names), move || { let f = VariableShapeTensorField::new("t", elem(), ndim).map_err(|e| e.to_string())?; f.dim_names(n2).map_err(|e| e.to_string())?; Ok(()) });
+                let us: Vec<Option<usize>> = (0..nn).map(|i| if i % 2 == 0 { Some(i + 1) } else { None }).collect();
+                let u1 = us.clone();
+                attempt(ctx, "tensor:variable_uniform_shape", format!("ndim {} uniform {:?}", ndim, us), move || { let f = VariableShapeTensorField::new("t", elem(), ndim).map_err(|e| e.to_string())?; f.uniform_shape(u1).map_err(|e| e.to_string())?; Ok(()) });
+            }
+        }
+    }
 }
 
 struct Item2<T>(T);
